@@ -40,6 +40,15 @@ class C17(ApiProp):
                 if tier == "thorough" or size <= 2:
                     for op, op2 in itertools.product(polls[::3], polls[1::4]):
                         cases.append(mk_case(size, 0, [], pre + [op, op2], "exhaustive-2", fam=20))
+        from . import dictionary, fam_api
+        for v in fam_api.NOVEL:
+            S = dictionary.size_for(v + 3, dictionary.TSIZES)
+            if S is None or (S > 4096 and v not in dictionary.exact()):
+                continue
+            data = tuple(97 + (i % 26) for i in range(v + 3))
+            for n in (v, v + 1, v + 3):
+                cases.append(mk_case(S, 0, [], [("PollWrite", data[:n]), ("Len",), ("PollWrite", (1, 2, 3)), ("Len",)], "dictionary", fam=20))
+                cases.append(mk_case(S, 0, [], [("WriteBytes", data[:v + 3]), ("PollRead", (), n, 0), ("Len",), ("PollRead", (7,), n, 1), ("Len",)], "dictionary", fam=20))
         for _ in range(3000 if tier == "quick" else 60000):
             size = rng.choice([1, 2, 3, 4, 5, 8, 16, 64])
             b = PyBuf(size, 0, [])
@@ -204,7 +213,7 @@ class ArfProp(Prop):
             if x < 0.35:
                 sc.append((3, 0, 0))
             elif self.faults and x < 0.45:
-                sc.append((1, rng.choice([3, 4, 5, 6, 7]), 0))
+                sc.append((1, rng.choice([1, 2, 3, 4, 5, 6, 7]), 0))
             else:
                 sc.append((0, rng.choice([1, 1, 2, 3, 5, 2 ** 64 - 1]), rng.choice([0, 0, 0, 2])))
         return sc
